@@ -11,12 +11,14 @@ Local Open Scope N_scope.
 Inductive akey :=
 | AInt (f : name) (idx : list iexpr)       (* a scalar field instance *)
 | ASize (f : name) (idx : list iexpr)      (* the element count of a container field instance *)
+| ABlob (f : name) (idx : list iexpr)      (* the bytes of a raw array instance *)
 | ALocal (x : lvar).                       (* a local variable *)
 
 Definition akey_eqb (a b : akey) : bool :=
   match a, b with
   | AInt f i, AInt f' i' => (f =? f') && idx_eqb i i'
   | ASize f i, ASize f' i' => (f =? f') && idx_eqb i i'
+  | ABlob f i, ABlob f' i' => (f =? f') && idx_eqb i i'
   | ALocal x, ALocal x' => x =? x'
   | _, _ => false
   end.
@@ -32,7 +34,7 @@ Definition idx_mentions (x : lvar) (idx : list iexpr) : bool :=
 (* forget everything that depends on the value of local x (and x itself) *)
 Definition akill (x : lvar) (A : list akey) : list akey :=
   filter (fun a => match a with
-                   | AInt _ idx | ASize _ idx => negb (idx_mentions x idx)
+                   | AInt _ idx | ASize _ idx | ABlob _ idx => negb (idx_mentions x idx)
                    | ALocal y => negb (x =? y)
                    end) A.
 
@@ -41,6 +43,8 @@ Definition akill_int (f : name) (A : list akey) : list akey :=
   filter (fun a => match a with AInt g _ => negb (f =? g) | _ => true end) A.
 Definition akill_size (f : name) (A : list akey) : list akey :=
   filter (fun a => match a with ASize g _ => negb (f =? g) | _ => true end) A.
+Definition akill_blob (f : name) (A : list akey) : list akey :=
+  filter (fun a => match a with ABlob g _ => negb (f =? g) | _ => true end) A.
 
 (* all index variables are agreed locals *)
 Definition idx_agreed (A : list akey) (idx : list iexpr) : bool :=
@@ -83,16 +87,16 @@ Fixpoint chk (v : version) (s : stmt) (A : list akey) : option (list akey) :=
   | SSync f idx p => if idx_agreed A idx && full_width p then Some (aadd (AInt f idx) A) else None
   | SHalf f idx => if idx_agreed A idx then Some (aadd (AInt f idx) A) else None
   | SRef f idx => if idx_agreed A idx then Some (aadd (AInt f idx) A) else None
-  | SStrRef _ findex idx =>
-    if Z.ltb (vfile v) V20_1_0_3 then Some A    (* inline string: nothing new is agreed; needs the writer's flag (Exec.warn) down *)
+  | SStrRef fstr findex idx =>
+    if Z.ltb (vfile v) V20_1_0_3 then Some (akill_blob fstr A)    (* inline string: nothing new is agreed; needs the writer's flag (Exec.warn) down *)
     else if idx_agreed A idx then Some (aadd (AInt findex idx) A) else None
-  | SBytes f idx n => if idx_agreed A idx && reads_ok A n then Some A else None
-  | SBytesVec f idx => if idx_agreed A idx && amem (ASize f idx) A then Some A else None
+  | SBytes f idx n => if idx_agreed A idx && reads_ok A n then Some (aadd (ABlob f idx) A) else None
+  | SBytesVec f idx => if idx_agreed A idx && amem (ASize f idx) A then Some (akill_blob f A) else None
   | SSyncLocal x p => if full_width p then Some (aadd (ALocal x) (akill x A)) else None
   | SResize f idx n => if idx_agreed A idx && reads_ok A n then Some (aadd (ASize f idx) A) else None
   | SLocal x p e => if reads_ok A e then Some (aadd (ALocal x) (akill x A)) else None
   | SAssign f idx p e => if idx_agreed A idx && reads_ok A e then Some (aadd (AInt f idx) A) else None
-  | SNiString f idx w => if (0 <? w) && (w <=? 8) then Some A else None
+  | SNiString f idx w => if (0 <? w) && (w <=? 8) then Some (akill_blob f A) else None
   | SVecSize f idx w x =>
     if idx_agreed A idx && (0 <? w) && (w <=? 8) then Some (aadd (ALocal x) (akill x (akill_size f A))) else None
   | SRefArrHead fsize fkeep frefs fidx idx w =>
